@@ -430,10 +430,21 @@ def run_harness_in(h, tier, want_playback, slot):
     cmd = list(base)
     unwindset = []
     if h["caps"]:
-        names = mangled_names(st, [CAP_PATTERNS[k] for k in h["caps"]])
-        for k, n in h["caps"].items():
+        rec = {k: n for k, n in h["caps"].items() if not k.startswith("loop:")}
+        names = mangled_names(st, [CAP_PATTERNS[k] for k in rec])
+        for k, n in rec.items():
             for sym in names.get(CAP_PATTERNS[k], []):
                 unwindset.append("%s:%d" % (sym, n))
+        # per-loop bounds: "loop:<pretty function name>.<loop number>=N"
+        for k, n in h["caps"].items():
+            if k.startswith("loop:"):
+                pretty, _, num = k[5:].rpartition(".")
+                syms = mangled_names(st, [pretty]).get(pretty, [])
+                if not syms:
+                    return dict(name=h["name"], outcome="error", detail="no function %s for a loop bound" % pretty,
+                                wall_s=0.0, log=logf)
+                for sym in syms:
+                    unwindset.append("%s.%s:%d" % (sym, num, n))
     if want_playback:
         cmd += ["-Z", "concrete-playback", "--concrete-playback=print"]
     if unwindset:
